@@ -12,6 +12,7 @@ def run_registry(ctx, mon_cfg, nl, ns):
         random.Random(ctx.seed).shuffle(ed)
         lsn += ed[:nl * 3]
     svc += core.generate(ctx, "Gen_Registry.tla", "Gen_Registry_Dup.cfg", 0, 0, ctx.seed, bfs=True, timeout=900)
+    svc += core.generate(ctx, "Gen_Registry.tla", "Gen_Registry_Churn.cfg", 0, 0, ctx.seed, bfs=True, timeout=900)
     ctx.say("  behaviours: %d listener walks (<= 2 HTTP listeners each) + %d service-connection walks" % (len(lsn), len(svc)))
     behs = lsn + svc
     hb = core.build_harness(ctx)
